@@ -196,6 +196,16 @@ class StructCase:
             body = ";"
         return f"#[derive(Clone, o2o)] {attrs} pub struct {name} {body}"
 
+    def items_only(self):
+        """the type definitions and derives only (no test driver): used by the #![no_std] batch"""
+        items = []
+        if not self.bare:
+            items.append(self.tydef("D", self.d_leaves()))
+            items.append(self.tydef("DX", self.dx_leaves()))
+        items.append(self.sdef("S", False))
+        items.append(self.sdef("Sf", True))
+        return "\n".join(i for i in items if i)
+
     def program(self):
         c, ci = self.c, self.ci
         D, DX = self.tyname("D"), self.tyname("DX")
